@@ -95,6 +95,7 @@ type gsMsg struct {
 	haveSrc   bool
 	plan      []failKind // outcomes of the first len(plan) destination calls (all failures); the next one is accepted
 	early     bool       // published before the relay subscribed (persistent source)
+	teeRefuse int        // Forwarder: the source refuses that many forwarder.Publisher calls whose last message this is (guarded by gsCase.mu)
 
 	// observed; guarded by gsCase.mu
 	calls      []*gsCall
@@ -222,8 +223,22 @@ type gsTee struct {
 	inner message.Publisher
 }
 
+// errTeeRefused is what the source answers to a forwarder.Publisher call it refuses (nothing of the call enters the source).
+var errTeeRefused = errors.New("c17: the forwarder topic's publisher refused the call")
+
 func (t *gsTee) Publish(topic string, msgs ...*message.Message) error {
 	t.g.mu.Lock()
+	if len(msgs) > 0 {
+		var env refEnvelope
+		if json.Unmarshal(msgs[len(msgs)-1].Payload, &env) == nil {
+			if rm := t.g.byID[env.Metadata[idKey]]; rm != nil && rm.teeRefuse > 0 {
+				rm.teeRefuse--
+				t.g.mu.Unlock()
+				t.g.teeRefused.Add(1)
+				return errTeeRefused
+			}
+		}
+	}
 	for _, m := range msgs {
 		var env refEnvelope
 		if json.Unmarshal(m.Payload, &env) == nil {
@@ -309,26 +324,27 @@ type gsCase struct {
 	r    *vlib.Rand
 	kind string
 
-	cfg      gochannel.Config
-	gc       *gochannel.GoChannel
-	fo       *gochannel.FanOut
-	foFirst  bool // FanOut is running before the relay subscribes to it
-	sub      *gsSubscriber
-	dst      *vlib.Pub
-	comp     component
-	topics   []string // source topics the relay subscribes to
-	msgs     []*gsMsg
-	publish  func(batch []*gsMsg) error
-	cfgSig   string
-	config   map[string]any
-	edge     bool
-	ackCU    bool
-	ctxDst   bool // the destination honours the relayed message's context: it refuses a message whose context has ended
-	ctxMw    bool // Forwarder: one middleware honours the consumed message's context
-	mwRefuse atomic.Int64
-	workers  []*gsWorker
-	odd      *odd
-	counters map[string]int
+	cfg        gochannel.Config
+	gc         *gochannel.GoChannel
+	fo         *gochannel.FanOut
+	foFirst    bool // FanOut is running before the relay subscribes to it
+	sub        *gsSubscriber
+	dst        *vlib.Pub
+	comp       component
+	topics     []string // source topics the relay subscribes to
+	msgs       []*gsMsg
+	publish    func(batch []*gsMsg) error
+	cfgSig     string
+	config     map[string]any
+	edge       bool
+	ackCU      bool
+	ctxDst     bool // the destination honours the relayed message's context: it refuses a message whose context has ended
+	ctxMw      bool // Forwarder: one middleware honours the consumed message's context
+	mwRefuse   atomic.Int64
+	teeRefused atomic.Int64 // gosource/forwarder: forwarder.Publisher calls the source refused (the publisher retried)
+	workers    []*gsWorker
+	odd        *odd
+	counters   map[string]int
 
 	mu       sync.Mutex
 	byID     map[string]*gsMsg
@@ -620,6 +636,17 @@ func (g *gsCase) buildForwarder(res *vlib.Result) bool {
 		raw.Metadata.Set(idKey, rm.id)
 		rm.srcSnap, rm.haveSrc = vlib.Snap(raw), true
 	}
+	// the publisher of the forwarder topic refuses the first 1 (5 in 20) or 2 (2 in 20) forwarder.Publisher calls that end with the message
+	for _, rm := range g.msgs {
+		if rm.valid {
+			switch x := r.Intn(20); {
+			case x < 5:
+				rm.teeRefuse = 1
+			case x < 7:
+				rm.teeRefuse = 2
+			}
+		}
+	}
 	// the stream in random order
 	perm := r.Perm(len(g.msgs))
 	shuffled := make([]*gsMsg, len(g.msgs))
@@ -685,7 +712,14 @@ func (g *gsCase) buildForwarder(res *vlib.Result) bool {
 		if !batch[0].valid {
 			return g.gc.Publish(eff, ms...)
 		}
-		return fp.Publish(batch[0].wantTopic, ms...)
+		// the publisher of the forwarder topic refuses a call now and then (gsMsg.teeRefuse); the caller does what the
+		// error asks for and publishes the same messages again
+		for {
+			err := fp.Publish(batch[0].wantTopic, ms...)
+			if err == nil || !errors.Is(err, errTeeRefused) {
+				return err
+			}
+		}
 	}
 	g.cfgSig = vlib.Sig("fwd", g.ackCU, fwdTopic == "", nMw, g.ctxMw, ownRouter, closeTimeout, len(destTopics))
 	g.config = map[string]any{"ForwarderTopic": fwdTopic, "AckWhenCannotUnwrap": g.ackCU, "middlewares": nMw, "context_honouring_middleware": g.ctxMw, "external_router": ownRouter, "CloseTimeout": closeTimeout.String(), "dest_topics": destTopics}
@@ -963,6 +997,7 @@ func runGoSource(e *vlib.Env) vlib.Result {
 	res.Count("gosource_publisher_goroutines", nPublishers)
 	res.Count("gosource_cases_ctx_honouring_destination", b2i(g.ctxDst))
 	res.Count("gosource_forwarder_middleware_refusals_for_ended_context", int(g.mwRefuse.Load()))
+	res.Count("gosource_forwarder_publisher_calls_refused_by_source", int(g.teeRefused.Load()))
 	for k, v := range g.counters {
 		res.Count(k, v)
 	}
